@@ -37,7 +37,18 @@ func skippedWriteVerified(p *Prog, rule string) *RuleResult {
 		return false
 	}
 	var writer *ssa.Function
+	cands := append([]*ssa.Function{}, withClosures(top)...)
+	// helpers of the package that the closures call (the writer may have been given a name)
 	for _, fn := range withClosures(top) {
+		eachInstr(fn, func(b *ssa.BasicBlock, in ssa.Instruction) {
+			if c, ok := in.(ssa.CallInstruction); ok {
+				if callee := c.Common().StaticCallee(); callee != nil && pkgPathOf(callee) == pkgPathOf(top) && len(callee.Blocks) > 0 {
+					cands = append(cands, withClosures(callee)...)
+				}
+			}
+		})
+	}
+	for _, fn := range cands {
 		if fn == top {
 			continue
 		}
@@ -103,8 +114,8 @@ func skippedWriteVerified(p *Prog, rule string) *RuleResult {
 			}
 		}
 	}
-	if !r.Anchor("the writing-disabled gate in the output writer", nedges >= 1) {
-		return r
+	if nedges == 0 {
+		r.Note("the writing-disabled gate is not inside the writer (it was named and is called under the gate); C17/R2 decides the gate")
 	}
 	entry := writer.Blocks[0]
 	path, found := reachesExitAvoidingEdges(entry, isReturnBlock, func(b *ssa.BasicBlock) bool {
